@@ -398,6 +398,8 @@ def generate(rs: int, tier: str, index: int) -> dict:
         cm = ch.sub("method")
         if fn in METHODS and spec["args"] and isinstance(spec["args"][0], dict) and "const" in spec["args"][0] and cm.chance(0.35):
             step["spelling"] = "method"
+        if cm.sub("abort").chance(0.12):
+            step["abort_first"] = cm.sub("abort").below(100000)  # the same call was made before and aborted part-way
         # history: the same function was called earlier with keywords the judged call leaves out
         if cm.chance(0.25):
             step["primer_kwargs"] = cm.choice([{"keepdims": True}, {"initial": 100}, {"dtype": "float64"}, {"dtype": "bool"}, {"axis": 0},
@@ -571,6 +573,9 @@ class Runner:
 
                             def func(first: Any, *rest: Any, _fn: str = fn, **kw: Any) -> Any:  # noqa: F811
                                 return getattr(first, _fn)(*rest, **kw)
+                    if step.get("abort_first") is not None:
+                        with numpy.errstate(all="ignore"):
+                            seams.interrupted_first(lambda: func(*p_args, **kwargs), NUMPOLY_DIR, step["abort_first"], self.stats)
                     if step.get("primer_kwargs"):
                         try:
                             with numpy.errstate(all="ignore"):
@@ -767,7 +772,7 @@ def simplify(plan: dict):
     step = plan["steps"][0]
     if step["k"] != "mirror":
         return
-    for key in ("primer_kwargs", "primer_cast"):
+    for key in ("primer_kwargs", "primer_cast", "abort_first"):
         if step.get(key):
             yield dict(plan, steps=[dict(step, **{key: None})])
     if step.get("spelling") == "method":
